@@ -169,6 +169,8 @@ def oracle(seed, tier):
         use_agg = rng.random() < 0.8
         data, sent, delivered = body_protocol_run(size, thr, proto, read_size, use_agg)
         res.evaluations += 1
+        if res.enough():
+            break
         wit = {'size': size, 'threshold': thr, 'sign_reads': proto['sign'], 'attempts_fail_after': attempts,
                'read_size': read_size, 'aggregated': use_agg, 'delivered': delivered[:20]}
         if sent != data:
